@@ -72,6 +72,12 @@ def gen(rng):
     for _i in range(rng.choice([1, 1, 2, 3])):
         vol = rng.choice(['/'] + L['vols'])
         d = L['work'][vol]
+        if vol != '/' and rng.random() < 0.6:
+            # start right below $topdir, with first path components of every flavour
+            # (the relative Path value then begins with them)
+            first = rng.choice(['Photos', 'archive', 'tmp', 'home', 'Path=x', '=eq', 'th', 'a', 'P', '%41', ' lead', '[Trash Info]',
+                                'DeletionDate=1', '..x', '-dash', 'é', '~', 't'])
+            d = vol + '/' + first if rng.random() < 0.8 else vol
         for _k in range(rng.choice([0, 0, 1, 2, 5])):
             comp = G.rand_name_bytes(rng, 30, allow_invalid=False) if rng.random() < 0.5 else rng.choice(['sub', 'a b', 'x%y', 'ü'])
             d = d + '/' + comp
@@ -79,7 +85,8 @@ def gen(rng):
             if rng.random() < 0.7 else rng.choice(G.TROUBLE)
         if len((d + '/' + nm).encode('utf-8', 'surrogateescape')) > 3000:
             continue
-        steps.append(['d', d, 0o755])
+        if d != vol:
+            steps.append(['d', d, 0o755])
         p = d + '/' + nm
         if any(p == a or p.startswith(a + '/') or a.startswith(p + '/') for a in args):
             continue
